@@ -774,6 +774,38 @@ func famStreams(dir string, seed int64, tier string) {
 		if classOf(err) == "EPanic" {
 			repC.violate("C14", "copy-panic", fmt.Sprintf("%v", err), desc)
 		}
+		// reference interpreter of the sink protocol for nested configurations (no AltSink, plain token sources)
+		noAlt := true
+		for _, s := range sinks {
+			if s.hasAlt() {
+				noAlt = false
+			}
+		}
+		if noAlt && !plain && (src.kind == "tokens" && (src.cont == nil || src.cont.kind == "fail")) {
+			wantLogs, wantFail, _ := refCopy(srcTs, srcFails, sinks)
+			if wantFail != (err != nil) {
+				repC.violate("C14", "nested-sinks-result", fmt.Sprintf("Copy returned %v, the reference interpreter of the sink protocol expects failure=%v", err, wantFail), desc)
+			} else {
+				for id, wl := range wantLogs {
+					var got []*sb.Token
+					if cv, ok := rc.cv[id]; ok {
+						for i := range *cv {
+							got = append(got, &(*cv)[i])
+						}
+					} else {
+						got = rc.logs[id]
+					}
+					okLog := sameLog(got, wl)
+					if wantFail && !okLog && len(wl) > 0 {
+						okLog = sameLog(got, wl[:len(wl)-1]) // the failing round may not have reached this sink
+					}
+					if !okLog {
+						repC.violate("C14", "nested-sinks-delivery", fmt.Sprintf("sink %d saw [%s], the reference interpreter of the sink protocol gives [%s]", id, descLog(got), descLog(wl)), desc)
+						break
+					}
+				}
+			}
+		}
 		wC.add(fmt.Sprintf("CopyCase %s %s %s %s %d%%nat", src.coq(), coqSinks(sinks), classOf(err), coqLogs(rc), pulled), desc, len(sinks) > 0)
 	}
 
